@@ -52,4 +52,19 @@ example : lex .sqlite (render .sqlite (.drop [120, 34, 59, 32, 68, 82, 79, 80, 3
     [.word [68, 82, 79, 80], .word [84, 65, 66, 76, 69],
      .qident [120, 34, 59, 32, 68, 82, 79, 80, 32, 84, 65, 66, 76, 69, 32, 116, 59, 32, 45, 45]] := by decide
 
+/-- escaping only doubles quote characters: the identifier is the name plus one byte per quote character in it,
+plus the two delimiters — nothing is dropped or truncated, whatever the length -/
+theorem quoteIdent_length (q : UInt8) (name : Str) :
+    (quoteIdent q name).length = name.length + (name.filter (· == q)).length + 2 := by
+  have h : ∀ n : Str, (escape q n).length = n.length + (n.filter (· == q)).length := by
+    intro n
+    induction n with
+    | nil => rfl
+    | cons c rest ih =>
+      by_cases hc : c = q
+      · subst hc; simp [escape, ih]; omega
+      · have hb : (c == q) = false := by simpa using hc
+        simp [escape, hc, hb, ih]; omega
+  simp [quoteIdent, h]
+
 end Goframe.C13
